@@ -217,13 +217,21 @@ Definition quant_matches (q : option Q) (o : option dbl) : bool :=
   end.
 (* relative tolerance on the variance for the one quantity that is genuinely rounded *)
 Definition std_tol : Q := 1 # 1000000000000.
-Definition std_matches (v : option Q) (o : option dbl) : bool :=
+(* ... or, for ill-conditioned data (a tiny spread around a large magnitude), within the conditioning
+   of the computation: |s - sigma| <= 8 ulps of the largest magnitude, i.e. (s-b)^2 <= v <= (s+b)^2 *)
+Definition std_matches (maxabs : Q) (v : option Q) (o : option dbl) : bool :=
   match v, o with
   | None, None => true
   | Some v, Some (DFin m e) =>
-      let s := dbl_val m e in Qle_bool 0 s && Qle_bool (Qabs (s * s - v)) (std_tol * v)
+      let s := dbl_val m e in
+      Qle_bool 0 s &&
+      (Qle_bool (Qabs (s * s - v)) (std_tol * v)
+       || (let b := (8 # 4503599627370496) * maxabs in
+           let lo := s - b in let hi := s + b in
+           (Qle_bool lo 0 || Qle_bool (lo * lo) v) && Qle_bool v (hi * hi)))
   | _, _ => false
   end.
+Definition qmaxabs (l : list Q) : Q := fold_right (fun x a => if Qle_bool a (Qabs x) then Qabs x else a) 0%Q l.
 Fixpoint all2 {A B} (f : A -> B -> bool) (l : list A) (l' : list B) : bool :=
   match l, l' with
   | [], [] => true
@@ -247,15 +255,24 @@ Inductive observation :=
 | OTime (year_range newest oldest median : list Z)
 | OEmb (d : Z).
 
-Definition num_stats_ok (s : num_stats) (mean std : option dbl) (quants : list (option dbl)) : bool :=
-  mean_matches (s_mean s) mean && std_matches (s_var s) std && all2 quant_matches (s_quant s) quants.
+Definition num_stats_ok (maxabs : Q) (s : num_stats) (mean std : option dbl) (quants : list (option dbl)) : bool :=
+  mean_matches (s_mean s) mean && std_matches maxabs (s_var s) std && all2 quant_matches (s_quant s) quants.
+(* a column held in a reduced-precision float type (float32 / float16): numpy computes in that type, so only
+   WHICH statistics are NaN is compared (the values are judged by the oracle within that type's precision) *)
+Definition present_matches {A B} (a : option A) (b : option B) : bool :=
+  match a, b with None, None | Some _, Some _ => true | _, _ => false end.
+Definition num_shape_ok (s : num_stats) (mean std : option dbl) (quants : list (option dbl)) : bool :=
+  present_matches (s_mean s) mean && present_matches (s_var s) std && all2 present_matches (s_quant s) quants.
+
+Definition col_shape_ok (cells : list num) (m s : option dbl) (q : list (option dbl)) : bool :=
+  num_shape_ok (compute_num cells) m s q.
 
 (* model statistics of a column vs. what the implementation reported (and, for the
    category columns, how the materialized TensorFrame encoded every cell) *)
 Definition col_stats_ok (c : column) (o : observation) : bool :=
   match c, o with
-  | CNum cells, ONum m s q => num_stats_ok (compute_num cells) m s q
-  | CSeq cells, ONum m s q => num_stats_ok (compute_seq cells) m s q
+  | CNum cells, ONum m s q => num_stats_ok (qmaxabs (finite_values cells)) (compute_num cells) m s q
+  | CSeq cells, ONum m s q => num_stats_ok (qmaxabs (finite_values (flatten (present cells)))) (compute_seq cells) m s q
   | CCat is_target cells, OCount o tf =>
       (if is_target then valid_target_order o (present cells) else valid_count_order o (present cells))
       && list_eqb (list_eqb Z.eqb) (map (fun c => [encode_cat (map fst o) c]) cells) tf
